@@ -24,6 +24,7 @@ def nset(tier):
 
 
 RULE = RULE + ' Transformation sequences of depth <=2 are also applied to 1- and 2-segment wires, 2- and 3-segment helices and a 3-segment arc.'
+RULE = RULE + ' Four wires x 6 explicit/automatic tag patterns x each explicit tag as the target of each menu transformation.'
 
 
 def bounds(tier, seed):
